@@ -31,12 +31,18 @@ Judge(e) ==
             mustGuard == win # {} /\ \A r \in win : Protected(e, r.id)
             pid == PathIDOf(e.backend.pathid, 1, NoHit, b)
             ok == Guarded(e.front, NoHit, b, p) \/ Guarded(e.backend.auth, pid, b, p)
-        IN IF mustGuard => ok THEN {}
-           ELSE {[id |-> e.id, inv |-> "FailClosed", path |-> p, cs |-> e.cs, alias |-> hc[1] = "b"]}
+            \* ... and the guard is a deny or a call to the service the path declares
+            owner == IF win = {} THEN "none" ELSE (CHOOSE r \in win : TRUE).id
+            what == DeclaredService(e.cs, owner)
+            right == GuardedRight(e.front, NoHit, b, p, what) \/ GuardedRight(e.backend.auth, pid, b, p, what)
+        IN (IF mustGuard => ok THEN {}
+            ELSE {[id |-> e.id, inv |-> "FailClosed", path |-> p, cs |-> e.cs, alias |-> hc[1] = "b"]})
+           \cup (IF mustGuard /\ ok /\ Cardinality(win) = 1 /\ ~right
+                 THEN {[id |-> e.id, inv |-> "RightService", path |-> p, cs |-> e.cs, alias |-> hc[1] = "b"]} ELSE {})
         : k \in 1..Len(e.reqs), hc \in HostNames}
 
 TraceNext == /\ l <= Len(Trace) /\ l' = l + 1 /\ bad' = bad \cup Judge(Trace[l]) /\ UNCHANGED cs
-TraceInit == cs = [url |-> "none", oauth |-> "none", placement |-> "backend", ptype |-> "exact", lua |-> TRUE, range |-> "default", open |-> "after", cors |-> FALSE, pubauth |-> FALSE, src |-> "ingress", oprefix |-> "default", elder |-> "none"] /\ l = 1 /\ bad = {}
+TraceInit == cs = [url |-> "none", oauth |-> "none", placement |-> "backend", ptype |-> "exact", lua |-> TRUE, range |-> "default", open |-> "after", cors |-> FALSE, pubauth |-> FALSE, src |-> "ingress", oprefix |-> "default", elder |-> "none", twin |-> FALSE] /\ l = 1 /\ bad = {}
 TraceSpec == TraceInit /\ [][TraceNext]_<<cs, l, bad>>
 Result == l = Len(Trace) + 1 => PrintT(<<"RESULT", ToJson([n |-> l - 1, bad |-> bad])>>)
 =============================================================================
